@@ -205,7 +205,7 @@ SPEC = dict(
          "destination / symbol code >= K left in a caller buffer; DIFF = guard outcome "
          "(panic / early return / rows written) or stride differs from the model, the extracted checker check_C06 rejects a model "
          "access, or the extracted history model (FpHistory.hstep, the subject of C06_histories_partial) replayed on the observed "
-         "pre-state of the op gives another post-state / kernel entry than the implementation. Source tie: 575 memory-relevant statements of the 50 functions the model was transcribed from (neon.rs "
+         "pre-state of the op gives another post-state / kernel entry than the implementation. Source tie: 578 memory-relevant statements of the 50 functions the model was transcribed from (neon.rs "
          "included) are compared with their pinned text, and every `unsafe` of lightmotif/src must lie inside them. Source-derived "
          "footprints: an interpreter of the kernels' control flow and pointer arithmetic derives the access list of each of the 15 "
          "kernels (12 x86 + 3 NEON) on a parameter grid (294 quick / 385 thorough cases) from the source text; the driver compares it "
